@@ -17,10 +17,13 @@ from .common import *
 FILE = "dissect/hypervisor/disk/vhdx.py"
 MB = 1024 * 1024
 
-BITFN = z3.Function("bit", I, I, I)  # bit(v, j) = (v >> j) & 1 for 0 <= v < 256, 0 <= j < 8 (axioms below, table-checked every run)
+from pyvc.engine import BIT as BITFN  # bit(v, j) = (v >> j) & 1 for 0 <= v < 256, 0 <= j < 8 (axioms below, table-checked every run)  # noqa: E402
 
 
 def bit_axioms():
+    # table check of the axioms (and of the reading of `(x & (1 << j)) >> j` as bit j of x) against CPython, every time they are used
+    assert all(((0 >> j_) & 1) == 0 and ((255 >> j_) & 1) == 1 for j_ in range(8))
+    assert all(0 <= ((v_ & (1 << j_)) >> j_) <= 1 and ((v_ & (1 << j_)) >> j_) == ((v_ >> j_) & 1) for v_ in range(256) for j_ in range(16))
     v, j = z3.Ints("bv bj")
     return [z3.ForAll([v, j], z3.And(BITFN(v, j) >= 0, BITFN(v, j) <= 1)),
             z3.ForAll([j], BITFN(0, j) == 0),
@@ -29,6 +32,15 @@ def bit_axioms():
 
 def cv():
     return importlib.import_module("dissect.hypervisor.disk.c_vhdx")
+
+
+def partial_run_ok(bitmap_at, s, n, t, c, plen):
+    """per-element contract of the run sequence of _iter_partial_runs(bitmap, s, n): run (t, c) that starts `plen` bits after bit s
+    of the bitmap (least significant bit of each byte first) is non-empty, stays inside the n requested bits, and all its bits are t.
+    Used as the assumed contract at the call site in VHDX.read_sectors and as the per-yield obligation proved on the generator."""
+    j = z3.Int("j")
+    return z3.And(c >= 1, plen + c <= n, z3.Or(t == 0, t == 1),
+                  z3.ForAll([j], z3.Implies(z3.And(0 <= j, j < c), BITFN(bitmap_at((s + plen + j) / 8), (s + plen + j) % 8) == t)))
 
 
 class VhdxModel(Model):
@@ -130,10 +142,7 @@ class VhdxModel(Model):
             return TupleV([IntV(fresh("run_type")), IntV(fresh("run_count"))])
 
         def ok(el, plen):
-            t, c = el.items[0].e, el.items[1].e
-            j = z3.Int("j")
-            return z3.And(c >= 1, plen + c <= n, z3.Or(t == 0, t == 1),
-                          z3.ForAll([j], z3.Implies(z3.And(0 <= j, j < c), BITFN(bitmap.at((s + plen + j) / 8), (s + plen + j) % 8) == t)))
+            return partial_run_ok(bitmap.at, s, n, el.items[0].e, el.items[1].e, plen)
 
         return SeqV(elem, ok, lambda el: el.items[1].e, n)
 
@@ -342,13 +351,73 @@ def _bat_pb_sb(which):
                       note="chunk ratio symbolic: covers disks large enough that sector-bitmap entries are interleaved in the BAT")
 
 
+# ------------------------------------------------------------------------------------------------ sector-bitmap run generator
+class PartialRunsModel(Model):
+    def __init__(self):
+        super().__init__()
+        self.hyps = bit_axioms()
+
+
+def _partial_runs():
+    """_iter_partial_runs(bitmap, start_idx, length): the callee contract that VHDX.read_sectors assumes (partial_run_ok per run, the runs
+    cover exactly `length` bits), proved here on the generator itself for every bitmap, start bit 0..7 and length."""
+    s0, n0 = z3.Ints("start0 length0")
+    BM = z3.Array("bitmap", I, I)
+    BN = z3.Int("len(bitmap)")
+    bm_at = lambda i: z3.Select(BM, i)  # noqa: E731
+
+    def gbit(p):  # SPEC: bit number start0 + p of the bitmap, least significant bit of each byte first
+        return BITFN(bm_at((s0 + p) / 8), (s0 + p) % 8)
+
+    def pending(st):
+        length, ct, cc, plen = st.env["length"].e, st.env["current_type"].e, st.env["current_count"].e, st.ghost["plen"]
+        cons = n0 - length  # bits consumed so far = bits in the yielded runs + bits in the pending run
+        j = z3.Int("j")
+        st.anchor(plen, cc, cons, cls="byte")
+        return cons, z3.And(length >= 0, plen >= 0, cc >= 0, plen + cc == cons, z3.Or(ct == 0, ct == 1),
+                            z3.Implies(cc == 0, z3.And(cons == 0, ct == gbit(z3.IntVal(0)))),
+                            z3.ForAll([j], z3.Implies(z3.And(0 <= j, j < cc), gbit(plen + j) == ct)))
+
+    def inv_bytes(eng, st):
+        i, start_idx = st.env["$i0"].e, st.env["start_idx"].e
+        cons, pend = pending(st)
+        return z3.And(start_idx == z3.If(i == 0, s0, 0), cons == z3.If(i == 0, 0, zmin(n0, 8 * i - s0)),
+                      z3.Implies(st.env["length"].e > 0, s0 + cons == 8 * i + start_idx), pend)  # the next bit is bit start_idx of byte i
+
+    def inv_bits(eng, st):
+        b, start_idx = st.env["$i1"].e, st.env["start_idx"].e
+        cons, pend = pending(st)
+        i = st.env["$i0"].e
+        return z3.And(st.env["length"].e == st.ghost["@length"] - (b - start_idx),
+                      z3.Implies(st.ghost["@length"] > 0, s0 + cons == 8 * i + b), pend)  # the next bit is bit b of byte i
+
+    def on_yield(eng, st, v, node):
+        t, c = v.items
+        plen = st.ghost["plen"]
+        eng.ob("yield.run_ok", st, partial_run_ok(bm_at, s0, n0, t.e, c.e, plen), node)
+        st.ghost["plen"] = plen + c.e
+
+    def post(eng, st, rv):
+        return [("runs_cover_exactly_length_bits", st.ghost["plen"] == n0)]
+
+    return FnContract(
+        FILE, "_iter_partial_runs", ["C07", "C03", "C08"], PartialRunsModel,
+        params=lambda m: {"bitmap": BytesV(BN, bm_at), "start_idx": IntV(s0), "length": IntV(n0)},
+        requires=lambda m: m.hyps + [byte_range_axiom(BM), BN >= 0, 0 <= s0, s0 < 8, n0 >= 1, 8 * BN >= s0 + n0],
+        post=post, on_yield=on_yield, ghost=lambda m: {"plen": z3.IntVal(0)},
+        loops={("For", 0): LoopSpec(inv_bytes, ghost_havoc={"plen": "int"}), ("For", 1): LoopSpec(inv_bits, ghost_havoc={"plen": "int"})},
+        shifts=r"^(plen|current_count)!", mode="functional",
+        note="generator: per-yield obligation partial_run_ok relative to the ghost position plen; bitmap bytes, start bit and length symbolic; "
+             "(byte & (1 << j)) >> j is bit(byte, j), the function the specification is written in")
+
+
 replay = make_replay("vhdx")
 bounded = make_bounded("vhdx", "vhdx.small_scope", quick_specs=40, thorough_specs=300)
 
 
 def trusted(pid):
     return ["A3 file objects; A3 dissect.cstruct bit-field layout of bat_entry (probed every run)", "A3 lru_cache transparent for BlockAllocationTable.get",
-            "bit(v, j) axioms (0/255 bytes, range) are table-checked against CPython every run", "A6 well-formed image as precondition (states in {0,1,2,3,6,7}; present blocks and bitmap blocks inside the file; state 7 only in differencing files)"]
+            "bit(v, j) axioms (0/255 bytes, range) are table-checked against CPython every run; (x & (1 << j)) >> j in _iter_partial_runs is read as bit(x, j) (exact for x >= 0, j >= 0, both obliged)", "A6 well-formed image as precondition (states in {0,1,2,3,6,7}; present blocks and bitmap blocks inside the file; state 7 only in differencing files)"]
 
 
 def contracts(repo):
@@ -356,5 +425,5 @@ def contracts(repo):
     for ss in (512, 4096):
         out += [_read_sectors(ss, "functional", False, repo), _read_sectors(ss, "functional", True, repo), _vhdx_read(ss)]
     out.append(_read_sectors(512, "termination", True, repo))
-    out += [_bat_get(), _bat_pb_sb("pb"), _bat_pb_sb("sb")]
+    out += [_bat_get(), _bat_pb_sb("pb"), _bat_pb_sb("sb"), _partial_runs()]
     return out
